@@ -154,7 +154,7 @@ type PathPool struct {
 
 var stdSome = []string{"fmt", "os", "io", "strings", "math/rand", "crypto/rand", "text/template", "html/template", "net/http", "unsafe", "encoding/json", "go/ast", "sort", "bytes", "C"}
 var baseNames = []string{"d", "d", "d", "util", "rand", "x", "v2", "pkg", "go-lib", "My.Pkg", "123", "9lives", "type", "any", "string", "err", "len", "init", "main", "_", "a_b", "ÄÖ", "Kelvin", "İstanbul", "d1", "d2", "C", "c", "fmt", "os"}
-var hosts = []string{"a.com", "b.com", "c.org/x", "github.com/u", "example.com/very/long/path", "", "gopkg.in"}
+var hosts = []string{"a.com", "b.com", "c.org/x", "github.com/u", "example.com/very/long/path", "", "gopkg.in", "9fans.net/go", "Azure.com/sdk", "B2.io", "-dash.org"}
 
 func genPath(r *Rng) string {
 	switch r.Intn(12) {
